@@ -846,8 +846,16 @@ class Shelxfile():
         sfac_num = self.elem2sfac(element)
         self.atoms._atomsdict.clear()
         a.set_atom_parameters(name=name, sfac_num=sfac_num, coords=coordinates,
-                              part=part, afix=afix, resi=resi, site_occupation=sof, uvals=uvals)
-        self._append_card(self.atoms, a, 0)
+                              part=part, afix=afix, resi=resi, site_occupation=sof, uvals=uvals, symmgen=False)
+        # The new atom gets a line of its own in front of HKLF (it must not take the place of another line), and
+        # stands behind the last atom that is not a Q-peak in the list of atoms, as it does in the file:
+        position = self.hklf.index if self.hklf else len(self._reslist)
+        self._insert_into_reslist(position, a)
+        list_position = 0
+        for num, atom in enumerate(self.atoms.all_atoms):
+            if not atom.qpeak:
+                list_position = num + 1
+        self.atoms.all_atoms.insert(list_position, a)
         self.atoms._atomsdict.clear()
 
     def frac_to_cart(self, coordinates: list) -> Array:
